@@ -48,6 +48,12 @@ TEXTS.update({
  "C18": _t("rapid property test; model parser written from the statement; metamorphic over read partitions; fault injection (read/callback errors, truncation, corrupt sizes)",
            EXPL_NOTE + "Tens of thousands of streams x partitions per run; the reader position at each callback checks 'delivered as soon as complete'.",
            TRUST + " Declared box sizes above 16 MiB are not generated (allocation from a 4-byte field is noted in DESIGN).", "DESIGN.md §7 C18"),
+ "C12": _t("rapid property test; cue validity predicate (both readings of the clipping rule) + expected per-second cue list; independent TTML/vttc parsing",
+           EXPL_NOTE + "stpp and wvtt segments over bundled and generated assets with boundaries on and off the whole second, many wraps, start != 0.",
+           TRUST + " Assets with whole-ms boundaries only; one open known finding (cue duration > 1000 ms).", "DESIGN.md §7 C12"),
+ "C13": _t("rapid property tests; exactly-one-carrier model over contiguous segment grids; own splice_info_section parser with CRC-32/MPEG-2",
+           EXPL_NOTE + "Library level over thousands of grids incl. the PTS wrap; HTTP level over bundled and generated assets for three consecutive minutes.",
+           TRUST, "DESIGN.md §7 C13"),
 })
 
 _claimed = set(TEXTS)
